@@ -16,6 +16,7 @@ import (
 	"sort"
 	"strings"
 	"testing"
+	"testing/synctest"
 
 	"github.com/modelcontextprotocol/go-sdk/internal/verifx"
 	"github.com/modelcontextprotocol/go-sdk/jsonrpc"
@@ -519,5 +520,30 @@ func TestVerifC17(t *testing.T) {
 	}})
 	c17BadCursors(env, res)
 	c17Filtered(env.NewCases(res, "filtered-listings"))
+	// a client that caches list pages (2026-07-28, positive TTL): a traversal begun after it has handled
+	// the list-changed notification yields every registered item exactly once (the scenario is C18's)
+	cached := env.NewCases(res, "cached-pages-after-list-changed")
+	for _, k := range c18kKinds() {
+		for _, ps := range []int{1, 2, 3} {
+			idx, mine := cached.Next()
+			if !mine {
+				continue
+			}
+			var obs, sig, msg string
+			func() {
+				defer func() {
+					if r := recover(); r != nil && sig == "" {
+						sig, msg = "c17 cached-pages panic-or-leak", fmt.Sprint(r)
+					}
+				}()
+				synctest.Test(t, func(t *testing.T) { obs, sig, msg = c18kPagedCase(k, "2026-07-28", 60000, ps) })
+			}()
+			if sig != "" {
+				cached.Violate(idx, "c17"+strings.TrimPrefix(sig, "c18"), msg, 8)
+				continue
+			}
+			cached.Record(idx, obs, 8, func() string { return fmt.Sprintf("%s page size %d", k.name, ps) })
+		}
+	}
 	env.Finish(res)
 }
